@@ -44,6 +44,8 @@ struct TdFam {
     (void)o.get_serialized_size_bytes(r.coin());
   }
   static const bool HAS_MERGE_REF = true, HAS_MERGE_MOVE = false, HAS_RESET = false, HAS_ROUNDTRIP = true;
+  static const bool SINGLE_INSTANCE = true;
+  static Arena* arena_of(const Obj& o) { return o.get_allocator().arena; }
   static const int SELF_MERGE = SM_DOUBLES;   // total weight doubles, range and k stay
   static SelfMergeFacts self_merge_facts(const Obj& o, const Cfg&) {
     SelfMergeFacts f;
@@ -87,6 +89,8 @@ struct CmFam {
   }
   static void query(const Obj& o, const Cfg&, Rng& r) { const uint64_t v = r.below(1000); (void)o.get_estimate(v); (void)o.get_upper_bound(v); (void)o.get_lower_bound(v); (void)o.get_relative_error(); }
   static const bool HAS_MERGE_REF = true, HAS_MERGE_MOVE = false, HAS_RESET = false, HAS_ROUNDTRIP = true;
+  static const bool SINGLE_INSTANCE = true;
+  static Arena* arena_of(const Obj& o) { return o.get_allocator().arena; }
   static const int SELF_MERGE = SM_REFUSES;   // documented: "Cannot merge a sketch with itself."
   static SelfMergeFacts self_merge_facts(const Obj& o, const Cfg&) { SelfMergeFacts f; f.doubles = {static_cast<double>(o.get_total_weight())}; f.same = "shape=" + std::to_string(o.get_num_hashes()) + "x" + std::to_string(o.get_num_buckets()); return f; }
   // objects of differently shaped configurations cannot be merged (documented: throws); merge only compatible ones
@@ -125,6 +129,8 @@ struct BloomFam {
   }
   static void query(const Obj& o, const Cfg&, Rng& r) { const uint64_t v = r.below(5000); (void)o.query(v); (void)o.query(std::string("x") + std::to_string(v)); (void)o.get_serialized_size_bytes(); }
   static const bool HAS_MERGE_REF = true, HAS_MERGE_MOVE = false, HAS_RESET = true, HAS_ROUNDTRIP = true;
+  static const bool SINGLE_INSTANCE = true;
+  static Arena* arena_of(const Obj& o) { return o.allocator_.arena; }   // private member: -fno-access-control
   static const int SELF_MERGE = SM_IDEMPOTENT;   // union / intersection with itself
   static SelfMergeFacts self_merge_facts(const Obj& o, const Cfg&) {
     SelfMergeFacts f;
@@ -174,6 +180,9 @@ struct DensityFam {
   }
   static void query(const Obj& o, const Cfg&, Rng& r) { if (o.is_empty()) return; std::vector<double> p(o.get_dim(), r.unit()); (void)o.get_estimate(p); }
   static const bool HAS_MERGE_REF = true, HAS_MERGE_MOVE = true, HAS_RESET = false, HAS_ROUNDTRIP = true;
+  static const bool SINGLE_INSTANCE = true;
+  static const bool ITEM_PAYLOAD_DOUBLE = true;   // the points are std::vector<double, A> items carrying their own allocator
+  static Arena* arena_of(const Obj& o) { return o.get_allocator().arena; }
   static const int SELF_MERGE = SM_DOUBLES;   // n doubles; k and dim stay
   static SelfMergeFacts self_merge_facts(const Obj& o, const Cfg&) { SelfMergeFacts f; f.doubles = {static_cast<double>(o.get_n())}; f.same = "k=" + std::to_string(o.get_k()) + " dim=" + std::to_string(o.get_dim()); return f; }
   // sketches of different dimension cannot be merged (documented: throws); merge only compatible ones
